@@ -207,13 +207,13 @@ def compare(obs, vals, mask, scale=None, rtol=1e-11, want_cls=None, what='', der
     if deriv and list(obs['shape']) == list(mask.shape):
         obs = dict(obs, mask=obs['mask'] | mask)
     if list(obs['shape']) != list(mask.shape):
-        return '%sshape %s, expected %s' % (what, obs['shape'], list(mask.shape))
+        return '%sshape mismatch: %s, expected %s' % (what, obs['shape'], list(mask.shape))
     if want_cls and obs['cls'] != want_cls:
-        return '%sclass %s, expected %s' % (what, obs['cls'], want_cls)
+        return '%sclass mismatch: %s, expected %s' % (what, obs['cls'], want_cls)
     if obs['vals'].shape != vals.shape:
         return '%svalue array shape %s, expected %s' % (what, obs['vals'].shape, vals.shape)
     if not np.array_equal(obs['mask'], mask):
-        return '%smask %s, expected %s' % (what, obs['mask'].astype(int).tolist(), mask.astype(int).tolist())
+        return '%smask mismatch: %s, expected %s' % (what, obs['mask'].astype(int).tolist(), mask.astype(int).tolist())
     keep = np.broadcast_to(~mask.reshape(mask.shape + (1,) * (vals.ndim - mask.ndim)), vals.shape)
     a, b = obs['vals'][keep], vals[keep]
     if a.size and not np.all(np.isfinite(a)):
@@ -222,7 +222,7 @@ def compare(obs, vals, mask, scale=None, rtol=1e-11, want_cls=None, what='', der
     bad = np.abs(a - b) > 1e-300 + rtol * sc
     if np.any(bad):
         i = int(np.argmax(bad))
-        return '%svalue %r, expected %r (unmasked entry %d)' % (what, float(a[i]), float(b[i]), i)
+        return '%svalue mismatch: got %r, expected %r (unmasked entry %d)' % (what, float(a[i]), float(b[i]), i)
     return None
 
 
@@ -386,7 +386,7 @@ RING_OPS = ['add', 'sub', 'mul']
 
 def gen_cases(rng, tier, focus=()):
     cases = []
-    scale = 1 if tier == 'quick' else 8
+    scale = 3 if tier == 'quick' else 16
 
     def boost(fam):
         return 4 if fam in focus else 1
@@ -454,13 +454,12 @@ def gen_cases(rng, tier, focus=()):
             c.update(p=p, q=q)
         elif op in ('iadd', 'isub'):
             lo, hi = min(o1, o2), max(o1, o2)
-            # in-place operators: equal leading shapes only (a smaller operand with an array mask leaves a
-            # mis-shaped mask on every Qube subclass - a C05 matter, reported there, not a Polynomial one)
-            sa2 = sb2 = rng.choice(SHAPES)
+            # in-place operators: the operand must broadcast to the shape of self
+            sa2, sb2 = rng.choice([(a, b) for a, b in BPAIRS if np.broadcast_shapes(a, b) == a])
             c.update(p=gen_poly(rng, sa2, hi), q=gen_poly(rng, sb2, lo))
         elif op in ('imul', 'truediv'):
             if op == 'imul':
-                sa2 = sb2 = rng.choice(SHAPES)
+                sa2, sb2 = rng.choice([(a, b) for a, b in BPAIRS if np.broadcast_shapes(a, b) == a])
             else:
                 sa2, sb2 = rng.choice(BPAIRS)
             c.update(p=gen_poly(rng, sa2, o1), q=gen_poly(rng, sb2, 0, pats=['int', 'float', 'zero']))
@@ -1014,10 +1013,255 @@ def numeric(ctx, Pm, cases, broken=()):
     return rec, fails
 
 
+# ---------------------------------------------------------------------------
+# stage R + P: regeneration by tracing, generated obligations
+# ---------------------------------------------------------------------------
+def close(v, w, rtol=1e-9, atol=1e-12):
+    if isinstance(v, float) and isinstance(w, float) and math.isnan(v) and math.isnan(w):
+        return True
+    return abs(v - w) <= atol + rtol * max(abs(v), abs(w))
+
+
+def regenerate(ctx, Pm):
+    """run the tracer in its own process; returns the manifest (or None)"""
+    for d in (GEN, OBL):
+        os.makedirs(d, exist_ok=True)
+    sys.path.insert(0, lib.VERIF)
+    from tools.regen import tracer_c20 as TC
+    mine = {'Gen_kern_%s' % name for name, _, _ in TC.KERNELS}
+    for f in os.listdir(GEN):
+        if f.lstrip('.').split('.')[0] in mine:
+            try:
+                os.remove(os.path.join(GEN, f))
+            except OSError:
+                pass
+    for f in os.listdir(OBL):
+        if f.lstrip('.').startswith('C20_'):
+            try:
+                os.remove(os.path.join(OBL, f))
+            except OSError:
+                pass
+    mpath = os.path.join(ctx.dir, 'trace_manifest.json')
+    if os.path.exists(mpath):
+        os.remove(mpath)
+    env = dict(os.environ)
+    env['VERIF_REPO'] = lib.REPO
+    env['PYTHONPATH'] = lib.VERIF
+    t0 = time.time()
+    p = subprocess.run([sys.executable, '-m', 'tools.regen.tracer_c20'], cwd=lib.VERIF, env=env,
+                       stdout=subprocess.PIPE, stderr=subprocess.STDOUT, text=True, timeout=600)
+    if p.returncode != 0 or not os.path.exists(mpath):
+        ctx.obligations.append(('regenerate-kernels', False, p.stdout[-1500:]))
+        ctx.broken_tie('regeneration', 'tracer', p.stdout[-2000:])
+        return None
+    man = json.load(open(mpath))
+    ctx.log('R: %s in %.1fs' % (p.stdout.strip().splitlines()[-1], time.time() - t0))
+    if len(man['kernels']) != len(TC.KERNELS):
+        ctx.broken_tie('regeneration', 'tracer', 'traced %d of %d kernels' % (len(man['kernels']), len(TC.KERNELS)))
+    fns = {name: fn for name, fn, _ in TC.KERNELS}
+    n_ok = 0
+    for k in man['kernels']:
+        name = k['name']
+        if 'error' in k:
+            ctx.obligations.append(('trace:' + name, False, k['error']))
+            ctx.broken_tie('regeneration', 'trace:' + name, k['error'] + '\n' + k.get('traceback', ''))
+            continue
+        problems = []
+        if k['sanity_bad']:
+            problems.append('expression tree does not reproduce the traced concrete values: %s' % k['sanity_bad'][:3])
+        if k['path']:
+            problems.append('unexpected path condition %s' % k['path'][:3])
+        try:
+            with warnings.catch_warnings():
+                warnings.simplefilter('ignore')
+                io = TC.run_float(name, fns[name], Pm)
+            if len(io.outputs) != len(k['outputs']):
+                problems.append('output count differs: %d vs %d' % (len(io.outputs), len(k['outputs'])))
+            else:
+                for (g, idx, _, v), (g2, idx2, w, _v2) in zip(io.outputs, k['outputs']):
+                    if g != g2 or list(idx) != list(idx2) or not close(v, w):
+                        problems.append('%s%s: implementation %r, emitted term %r' % (g, idx, v, w))
+                        break
+            if io.masks != k['masks']:
+                problems.append('masks differ: %r vs %r' % (io.masks, k['masks']))
+        except Exception as e:      # noqa
+            problems.append('float run failed: %s: %s' % (type(e).__name__, e))
+        ok = not problems
+        n_ok += ok
+        ctx.obligations.append(('sanity:' + name, ok, '; '.join(problems)[:500]))
+        if not ok:
+            ctx.broken_tie('regeneration', 'sanity:' + name, '; '.join(problems))
+    ctx.traces = n_ok
+    ctx.cov['kernels_traced'] = len(man['kernels'])
+    return man
+
+
+def failing_lemma(path, msg, lemmas):
+    import re
+    m = re.search(r'line (\d+)', msg)
+    if not m:
+        return lemmas[0] if lemmas else None
+    line = int(m.group(1))
+    cur = None
+    for i, text in enumerate(open(path).read().splitlines(), 1):
+        mm = re.match(r'Lemma (\w+)', text)
+        if mm:
+            cur = mm.group(1)
+        if i >= line:
+            break
+    return cur
+
+
+def compile_generated(ctx, man, timeout):
+    """coqc the emitted kernels, then the obligation files, in parallel; returns the broken kernels"""
+    kernels = [k for k in man['kernels'] if 'error' not in k]
+    broken = []
+
+    def gen_job(k):
+        return k, lib.run_coqc(os.path.join(GEN, 'Gen_kern_%s.v' % k['name']), timeout=120, extra=GENFLAGS)
+
+    def obl_job(k):
+        return k, lib.run_coqc(os.path.join(OBL, 'C20_%s.v' % k['name']), timeout=timeout, extra=GENFLAGS)
+
+    t0 = time.time()
+    with ThreadPoolExecutor(max_workers=lib.NPROC) as ex:
+        gen_res = list(ex.map(gen_job, kernels))
+    bad_gen = set()
+    for k, (rc, out, err, dt) in gen_res:
+        if rc != 0:
+            bad_gen.add(k['name'])
+            ctx.obligations.append(('emit:' + k['name'], False, (err or out)[-800:]))
+            ctx.broken_tie('regeneration', 'emit:' + k['name'], (err or out)[-1500:])
+            broken.append(k['name'])
+    order = sorted([k for k in kernels if k['name'] not in bad_gen], key=lambda k: -k.get('dag_nodes', 0))
+    with ThreadPoolExecutor(max_workers=lib.NPROC) as ex:
+        res = list(ex.map(obl_job, order))
+    axioms = set()
+    slow = []
+    for k, (rc, out, err, dt) in res:
+        lemmas = k['lemmas']
+        slow.append((round(dt, 1), k['name']))
+        if rc == 0:
+            for l in lemmas:
+                ctx.obligations.append((l, True, 'coq/gen/obl/C20_%s.v' % k['name']))
+            for line in out.splitlines():
+                m = line.strip().split(' ')[0]
+                if '.' in m and line[:1] not in (' ', '\t') and m[0].isalpha() and not m.endswith(':'):
+                    axioms.add(m)
+        else:
+            msg = (err or out)[-1500:]
+            failing = failing_lemma(os.path.join(OBL, 'C20_%s.v' % k['name']), msg, lemmas)
+            seen = False
+            for l in lemmas:
+                if l == failing:
+                    seen = True
+                ctx.obligations.append((l, not seen and failing is not None, msg if seen else ''))
+            ctx.broken_tie('proof', 'C20_' + k['name'],
+                           {'kernel': k['name'], 'lemma': failing, 'coq': msg,
+                            'file': 'coq/gen/obl/C20_%s.v' % k['name'],
+                            'definitions': 'coq/gen/Gen_kern_%s.v' % k['name']})
+            ctx.log('OBLIGATION BROKEN %s (%s)\n%s' % (k['name'], failing, msg[-500:]))
+            broken.append(k['name'])
+    ctx.axioms['generated obligations (union)'] = ' '.join(sorted(axioms))
+    ctx.cov['slowest_obligation_files'] = sorted(slow, reverse=True)[:5]
+    ctx.log('P: %d kernel files + %d obligation files in %.1fs, %d broken'
+            % (len(kernels), len(order), time.time() - t0, len(broken)))
+    return broken
+
+
+# ---------------------------------------------------------------------------
+# stage K: the hand-written model inside Coq on recorded cases
+# ---------------------------------------------------------------------------
+HEADER = """From Coq Require Import List ZArith Bool.
+From Coq Require Import Floats.PrimFloat.
+From PM Require Import C20Model.
+Import ListNotations.
+Open Scope Z_scope.
+"""
+OPNAME = {'add': 'OpAdd', 'sub': 'OpSub', 'mul': 'OpMul', 'neg': 'OpNeg', 'pow': 'OpPow', 'deriv': 'OpDeriv',
+          'eval': 'OpEval'}
+
+
+def coq_term(r):
+    if r[0] == 'ring':
+        _, op, p, q, n, x, out = r
+        zl = lambda l: lib.clist([lib.cZ(v) for v in l], 'Z')
+        return '(CRing %s %s %s %s %s, ORing %s)' % (OPNAME[op], zl(p), zl(q), lib.cnat(n), lib.cZ(x), zl(out))
+    _, pmask, shifts, eig, out = r
+    el = lib.clist(['(mkeig %s %s %s)' % (lib.cfloat(re), lib.cbool(cx), lib.cfloat(mag)) for re, cx, mag in eig],
+                   'eig float')
+    ol = lib.clist(['(@None float)' if m else '(Some %s)' % lib.cfloat(v) for v, m in out], 'option float')
+    return '(CRoots %s %s %s, ORoots %s)' % (lib.cbool(pmask), lib.cnat(shifts), el, ol)
+
+
+def correspond(ctx, rec, fails):
+    recs = []
+    seen = set()
+    for r in rec:
+        if r[0] == 'ring' and r[1] not in OPNAME:
+            continue
+        key = lib.canon(r)
+        if key not in seen:
+            seen.add(key)
+            recs.append(r)
+    terms = [coq_term(r) for r in recs]
+    ctx.cov['correspondence_cases'] = {'ring(Z)': sum(1 for r in recs if r[0] == 'ring'),
+                                       'roots_post(float)': sum(1 for r in recs if r[0] == 'roots')}
+    if not terms:
+        ctx.broken_tie('correspondence', 'cases', 'no correspondence cases were recorded')
+        return
+    mism = ctx.coq_eval_shards('cases', HEADER, terms, lambda x: 'mismatches %s' % x)
+    if mism is None:
+        return
+    ctx.log('K: %d cases evaluated in Coq (%s), %d mismatches' % (len(terms), ctx.cov['correspondence_cases'], len(mism)))
+    ctx.obligations.append(('correspondence:model-vs-impl', not mism, '%d mismatches' % len(mism)))
+    for i in mism[:5]:
+        r = recs[i]
+        shown = ctx.coq_show(HEADER, 'run20 (fst %s)' % coq_term(r))
+        # the numeric oracle passed on the case this record came from (records are only taken then),
+        # so the model and the implementation disagree where NumPy and the implementation agree
+        ctx.broken_tie('correspondence', 'case-%d' % i, {'record': r, 'model': shown[-600:]})
+
+
 def run(ctx):
     Pm = P()
-    cases = gen_cases(ctx.rng, ctx.tier)
+    ctx.rule = ('orders 0-5 (every order pair for + - *), exponents 0-4, 11 broadcast-compatible pairs of leading '
+                'shapes, 6 mask representations, per-element coefficient patterns {small integers, pool of 18 floats, '
+                'leading zeros, all zero, built from real / repeated / complex-pair roots}, evaluation points from a '
+                'pool of 12 incl. +-0, derivatives on coefficients and/or on x (same or another key); roots: orders 1-5 '
+                '+ every multiset of 2-4 (thorough 2-5) roots from {-1,0,1,2}; quick = seeded sample (about 1900 cases), thorough = 5x; '
+                'non-trivial = a masked element, a genuine broadcast or operands of different order')
+    ctx.assumptions = [
+        'identities are proved over R (and Z); the float implementation is compared with NumPy within 1e-11 of the '
+        'magnitude sum |c_i||x|^i (condition-aware), roots within 1e-7 (1e-3 at multiple roots)',
+        'numpy.linalg.eigvals is a stub for the theorems: the post-processing model takes the eigenvalue list as input; '
+        'in the correspondence the list is what LAPACK really returned (recorded by wrapping numpy.linalg.eigvals in '
+        'the harness process)',
+        'tracing follows the single path of these branch-free kernels at leading shape (); the same element formula at '
+        'every broadcast index is checked numerically',
+        'a derivative key absent from a result counts as a zero derivative']
+    ctx.trusted = lib.DEFAULT_TRUSTED + [
+        'tools/regen/tracer.py, emit_coq.py (as for C16) + the np.array wrapper added by tracer_c20.py in the tracer '
+        'process; validated each run by re-evaluating every emitted term at the seed point against the unpatched '
+        'implementation',
+        'Coquelicot (is_derive) for C20_deriv']
+    man = regenerate(ctx, Pm)                                  # stage R
+    broken = []
+    lib_ok = ctx.ensure_library()
+    if lib_ok:                                                 # stage P
+        with ThreadPoolExecutor(max_workers=2) as ex:
+            fut = ex.submit(ctx.prove, ['theories/Props/C20.v'])
+            if man is not None:
+                broken = compile_generated(ctx, man, timeout=240 if ctx.tier == 'quick' else 600)
+            fut.result()
+    focus = sorted({b.split('_')[1] for b in broken})
+    if focus:
+        ctx.log('searching for a concrete failing input in: %s' % focus)
+    cases = gen_cases(ctx.rng, ctx.tier, focus)                # stage S (+ records for K)
     rec, fails = numeric(ctx, Pm, cases)
+    if lib_ok:
+        correspond(ctx, rec, fails)                            # stage K
+    ctx.exhaustive = False
     return ctx.finish()
 
 
